@@ -58,7 +58,7 @@
 (*                 unlimited ("Use 0 for no rate limiting"), whatever      *)
 (*                 Burst is; no configured subnet limits = unlimited.      *)
 (*                 A SubnetLimit with RPS == 0 is NOT unlimited in the     *)
-(*                 code (finding rate-subnet-zero-rps-not-unlimited): it   *)
+(*                 code (observation rate-subnet-zero-rps-not-unlimited): it*)
 (*                 is excluded from the model (ASSUME rate > 0) and probed *)
 (*                 separately by the harness.                              *)
 (*  R8 replenish   Time alone only ever refills: a tick raises no deficit, *)
